@@ -36,6 +36,11 @@ Inductive case :=
 
 Definition zl_eqb := list_eqb (list_eqb Z.eqb).
 
+(* how many bytes have been consumed when an error is raised is not fixed by the property: the unread
+   rest is compared only when data is returned *)
+Definition rest_sim {A} (r : res A) (rest orest : list N) : bool :=
+  match r with Ok _ => bytes_eqb rest orest | Err _ => true end.
+
 Definition check_case (c : case) : bool :=
   match c with
   | CIbEnc d s t g data obs => res_sim bytes_eqb (ib_encode (mkmsg d s t g data)) obs
@@ -54,20 +59,20 @@ Definition check_case (c : case) : bool :=
   | CT2 ovf bs oovf obs =>
       let '(o, es) := t2_batches ovf bs in (o =? oovf) && list_eqb (list_eqb ev_eqb) es obs
   | CScpiBlock flag term s obs orest =>
-      let '(r, rest) := read_block flag term s in res_sim bytes_eqb r obs && bytes_eqb rest orest
+      let '(r, rest) := read_block flag term s in res_sim bytes_eqb r obs && rest_sim r rest orest
   | CScpiAsk cmd ct rt r ow obs =>
       let '(w, x) := ask cmd ct rt r in bl_eqb w ow && res_sim bytes_eqb x obs
   | CAptParam dev host id p1 p2 obs => bytes_eqb (write_param_command dev host id p1 p2) obs
   | CAptData dev host id payload obs => bytes_eqb (write_data_command dev host id payload) obs
   | CAptAsk hc ho id sz s obs orest =>
-      let '(r, rest) := apt_ask hc ho id sz s in res_sim bytes_eqb r obs && bytes_eqb rest orest
+      let '(r, rest) := apt_ask hc ho id sz s in res_sim bytes_eqb r obs && rest_sim r rest orest
   | CUsbQuirkW v p data tag omts oadv orig oieee otr otag =>
       match write_raw data (N.to_nat omts) tag with
       | Some (tr, t) => bl_eqb tr otr && (t =? otag)
       | None => false
       end
   | CScpiBlockCh flag term trs obs orest =>
-      let '(r, st) := read_block_chunked flag term trs in res_sim bytes_eqb r obs && bytes_eqb (cflat st) orest
+      let '(r, st) := read_block_chunked flag term trs in res_sim bytes_eqb r obs && rest_sim r (cflat st) orest
   | CScpiWrite cmd ct obs => res_sim bl_eqb (scpi_write cmd ct) obs
   | CAptFields L bytes obs => zl_eqb (view L (unpack L bytes)) obs
   | CAptPack L vss obs => bytes_eqb (pack L vss) obs
